@@ -61,6 +61,7 @@ pub struct World {
     raw: Option<RawPeerState>,
     pub step: usize,
     sched_phase: u8,
+    step_bound: usize,
     /// tokio context (paused clock) entered for the lifetime of the world when a side uses keepalive; declared last
     clock: Option<tokio::runtime::EnterGuard<'static>>,
 }
@@ -84,7 +85,25 @@ impl World {
     pub fn new(case: &Case) -> World {
         let clock = if case.keepalive.iter().any(|k| *k) { Some(sim_runtime().enter()) } else { None };
         let log = Log::default();
+        // everything the scripts of this case can put into messages
+        let mut total: usize = 0;
+        for st in &case.streams {
+            for e in &st.ends {
+                for w in &e.w {
+                    total += match w {
+                        WOp::Write(n) => *n as usize,
+                        WOp::WriteV(v) => v.iter().map(|x| *x as usize).sum(),
+                        _ => 0,
+                    };
+                }
+            }
+        }
+        for b in case.bridges.iter() {
+            total += b.read.iter().map(|x| if let LR::Chunk(n) = x { *n as usize } else { 0 }).sum::<usize>();
+        }
+        total += case.dgrams.iter().map(|d| d.data_len as usize + d.host_len as usize).sum::<usize>();
         let link = SharedLink::new([case.cap[0].map(|c| c.max(1) as usize), case.cap[1].map(|c| c.max(1) as usize)]);
+        link.0.lock().unwrap().max_message = crate::engine::MAX_SIM_MESSAGE + total;
         let parking = Parking::default();
         let keep = Keeper(Default::default(), Rc::new(case.bridges.clone()));
         let mut exec = Exec::default();
@@ -309,6 +328,7 @@ impl World {
             raw: case.raw.clone().map(|policy| RawPeerState { policy, connects_seen: 0, pushes: BTreeMap::new() }),
             step: 0,
             sched_phase: case.sched_phase,
+            step_bound: if case.step_bound > 0 { case.step_bound as usize } else { STEP_BOUND },
             clock,
         }
     }
@@ -510,7 +530,7 @@ impl World {
         let mut scheduled = 0;
         // optional fair setup phase: sweep until the requested number of quiescence-triggered events has fired
         let phase = self.sched_phase as usize;
-        while phase > 0 && self.step < STEP_BOUND {
+        while phase > 0 && self.step < self.step_bound {
             let fired_q = self.events.iter().filter(|(e, f)| *f && matches!(e.when, Trigger::Quiescent)).count();
             if fired_q >= phase {
                 break;
@@ -534,7 +554,7 @@ impl World {
             }
         }
         let mut quiescent = false;
-        while self.step < STEP_BOUND {
+        while self.step < self.step_bound {
             if self.link.0.lock().unwrap().oversize.is_some() {
                 quiescent = true; // cut short on purpose: the oracles report it
                 break;
